@@ -122,7 +122,7 @@ MPROBES = [['10', 0, 1], ['30', 2, 0]]
 GEN3 = [
     {'t': 'table', 'map': False, 'e': [[0, 1, '2', '0'], [1, 2, '1/3', '5']]},
     {'t': 'table', 'map': True, 'e': [[0, 1, '3', '1']]},
-    {'t': 'fn', 'e': [[0, 2, '7', '0'], [1, 0, '1/4', '-1']]},
+    {'t': 'fn', 'bound': True, 'e': [[0, 2, '7', '0'], [1, 0, '1/4', '-1']]},
 ]
 GPROBES = [['10', 0, 1], ['9', 2, 0]]
 RATES = ['1/2', '2', '5/4', '4/5', '4', '1/4', '5/2', '2/5', '1', '10', '5', '1/5']
@@ -209,6 +209,8 @@ def _random_gen_conv(rng):
     sp = {'t': kind, 'e': es}
     if kind == 'table':
         sp['map'] = rng.random() < 0.5
+    else:
+        sp['bound'] = rng.random() < 0.6
     return sp
 
 
@@ -377,6 +379,25 @@ class _Ctx:
     pass
 
 
+class _Holder:
+    def __init__(self, fn):
+        self.fn = fn
+
+    def convert(self, q, u):
+        return self.fn(q, u)
+
+
+class _Bound:
+    """stands for `holder.convert`, taken afresh at every use"""
+    def __init__(self, holder):
+        self.holder = holder
+
+
+def _ref(ctx, i):
+    c = ctx.convs[i]
+    return c.holder.convert if isinstance(c, _Bound) else c
+
+
 def _setup(case):
     from quantity.converter import TableConverter
     ctx = _Ctx()
@@ -398,7 +419,12 @@ def _setup(case):
                 def fn(q, u, tab=tab):
                     e = tab.get((q.unit, u))
                     return None if e is None else e[0] * q.amount + e[1]
-                convs.append(fn)
+                if sp.get('bound'):
+                    # a bound method: every `holder.convert` is a NEW object that is equal
+                    # to, but not identical with, the one registered before (seeded C12-f/g)
+                    convs.append(_Bound(_Holder(fn)))
+                else:
+                    convs.append(fn)
     else:
         from quantity.money import Money, MoneyConverter
         cls = Money
@@ -432,7 +458,8 @@ def _cleanup(ctx):
 def _listing(ctx):
     out = []
     for c in ctx.cls.registered_converters():
-        idx = [i for i, x in enumerate(ctx.convs) if x is c]
+        idx = [i for i, x in enumerate(ctx.convs)
+               if x is c or (isinstance(x, _Bound) and c == x.holder.convert)]
         out.append(idx[0] if idx else 999)
     return out
 
@@ -457,10 +484,10 @@ def _call(ctx, op):
     k = op[0]
     try:
         if k == 'reg':
-            r = ctx.cls.register_converter(ctx.convs[op[1]])
+            r = ctx.cls.register_converter(_ref(ctx, op[1]))
             return _none_or(r, r is None)
         if k == 'rem':
-            r = ctx.cls.remove_converter(ctx.convs[op[1]])
+            r = ctx.cls.remove_converter(_ref(ctx, op[1]))
             return _none_or(r, r is None)
         if k == 'enter':
             r = ctx.convs[op[1]].__enter__()
